@@ -29,7 +29,7 @@ SELS = {"a": "U235", "b": "U238", "c": "NA23", "E": "U", "Lac": ["U235", "NA23"]
 # a handful of double operations per query: rtol 1e-9; absolute floor for differences of O(1) numbers (removeMass) and for
 # TRACE_NUMBER_DENSITY = 1e-50 that clearNumberDensities writes where the model says 0
 RTOL, ATOL = 1e-9, 1e-12
-WEIGHT_FREE_ACTIONS = {"SetN", "UpdateN", "SetNs", "Scale", "Clear"}
+WEIGHT_FREE_ACTIONS = {"SetN", "UpdateN", "SetNs", "Scale", "Clear", "SetHeight"}
 WEIGHT_FREE_OBS = ("vol", "nucs", "nd", "atoms")
 LMAX, VMAX = 20000, 100  # the model's bound on magnitudes (cfg constants LMax / VMax); the trace driver stays inside it
 _SELFTEST = False
@@ -130,6 +130,10 @@ class InvAdapter:
         w = self.world(fam)
         N = fl(root["N"])
         H = [[NAMES[ORDER[i]] for i in range(3) if hb[i]] for hb in root["H"]]
+        for i, b in enumerate(w.blocks):  # geometry first (a height change clears the block's caches)
+            h = float(root["hgt"][i]) if "hgt" in root else float(self.tree["height"][str(b)])
+            if w.node[b].getHeight() != h:
+                w.node[b].setHeight(h)
         gb.set_composition(w, [{NAMES[k]: v for k, v in n.items()} for n in N], H)
         w.err = ""
         return w
@@ -166,6 +170,15 @@ class InvAdapter:
                 o.setMass(NAMES[a["nuc"]], fl(a["m"]) / K)
             elif n == "SetMassFracs":
                 o.setMassFracs({NAMES[k]: fl(v) for k, v in a["m"].items()})
+            elif n == "AddMasses":  # dict order = the model's entry order (a, b, c)
+                o.addMasses({NAMES[k]: fl(a["m"][k]) / K for k in ORDER if k in a["m"]})
+            elif n == "SetMasses":
+                o.setMasses({NAMES[k]: fl(a["m"][k]) / K for k in ORDER if k in a["m"]})
+            elif n == "SetHeight":
+                if a["cons"]:
+                    o.setHeight(float(a["h"]), conserveMass=True, adjustList=sorted(o.getNuclides()))
+                else:
+                    o.setHeight(float(a["h"]))
             else:
                 raise AssertionError("unknown action " + n)
         except ValueError:
@@ -272,10 +285,14 @@ def density_tools_cases(states, K):
         if d and len(bad) < 10:
             bad.append({"function": fn, "case": case, "first_difference": d, "expected": exp, "observed": got})
 
+    seen = set()
     for obs in states:
         for o in fl(obs):
+            case = (tuple(o["nd"][k] for k in ORDER), o["evol"])
+            if case in seen:  # the functions are pure: one call per distinct (composition, volume)
+                continue
+            seen.add(case)
             v = {NAMES[k]: o["nd"][k] for k in ORDER}
-            rho = sum(o["mass"][k] for k in ORDER)  # only to skip the all-zero compositions; expected values below are TLC's
             if o["dens"] != -1.0:
                 chk("calculateMassDensity", o["dens"], float(dt.calculateMassDensity(dict(v))) * K, v)
             if all(x != -1.0 for x in o["mf"].values()):
@@ -289,7 +306,6 @@ def density_tools_cases(states, K):
                     {"nuc": k, "vol": o["evol"], "nd": o["nd"][k]})
                 chk("calculateNumberDensity", o["nd"][k], float(dt.calculateNumberDensity(NAMES[k], o["masses"][k] / K, o["evol"])),
                     {"nuc": k, "vol": o["evol"], "mass": o["masses"][k]})
-            del rho
     return n, bad
 
 
@@ -468,7 +484,8 @@ def area_cache(rep):
 # ------------------------------------------------------------------------------------------------------------
 # the run
 # ------------------------------------------------------------------------------------------------------------
-ACTIONS = ("BSetN", "BUpdateN", "BSetNs", "BScale", "BClear", "BAddMass", "BRemoveMass", "BSetMass", "BSetMassFracs")
+ACTIONS = ("BSetN", "BUpdateN", "BSetNs", "BScale", "BClear", "BAddMass", "BRemoveMass", "BSetMass", "BSetMassFracs",
+           "BAddMasses", "BSetMasses", "BSetHeight")
 
 
 def replay_config(rep, cfg, env, families, label, max_edges=None, seed=0, weight_free_too=True, dt=True):
@@ -500,7 +517,7 @@ def replay_config(rep, cfg, env, families, label, max_edges=None, seed=0, weight
             nd, bad = density_tools_cases(obs.values(), K)
             rep.add_replay(label + ":densityTools", nd, nd,
                            "densityTools.{calculateMassDensity,getMassFractions,getNDensFromMasses,getMassInGrams,calculateNumberDensity} "
-                           "called once per emitted composition and node; expected values are the specification's")
+                           "called once per distinct emitted (composition, volume); expected values are the specification's")
             for b in bad:
                 rep.violation("dt:" + b["function"], "densityTools.%s disagrees with Inventory: %s" % (b["function"], b["first_difference"]),
                               dict(b, direction="densityTools", cfg=cfg))
@@ -561,16 +578,17 @@ def run(rep, tier, seed):
     empty_density_probe(rep)
 
     # 1. exhaustive TLC: read-back clauses on every edge two edits deep (accounting clauses are checked in step 2's runs)
-    mc = ["Inventory_core_mc%s.cfg"] + (["Inventory_blk_mc%s.cfg", "Inventory_edge_mc%s.cfg"] if thorough else [])
+    mc = ["Inventory_core_mc%s.cfg"] + (["Inventory_blk_mc%s.cfg", "Inventory_edge_mc%s.cfg", "Inventory_core_geom_mc.cfg"] if thorough else [])
     if not _SELFTEST:
         for cfg in mc:
-            cfg = cfg % ("_thorough" if thorough else "")
+            cfg = cfg % ("_thorough" if thorough else "") if "%s" in cfg else cfg
             res = run_tlc("Inventory_mc", cfg, env, want_prints=False)
             rep.add_tlc("exhaustive:" + cfg, res, constants_of(cfg))
             if res.violation:
                 rep.violation("tlc:" + res.violation["name"], "TLC: %s violated in Inventory (%s)" % (res.violation["name"], cfg),
                               {"direction": "tlc", "cfg": cfg, "trace": res.violation["trace"][:20000]})
-            never = [a for a in ACTIONS if res.coverage.get(a, (0, 0))[1] == 0]
+            skip = ("BUpdateN", "BSetNs", "BScale", "BSetMassFracs", "BSetMasses") if "geom" in cfg else ()  # narrow by construction
+            never = [a for a in ACTIONS if a not in skip and res.coverage.get(a, (0, 0))[1] == 0]
             if never:
                 raise tlc.MachineryError("vacuous: actions never taken in %s: %s" % (cfg, never))
         # the clauses that depend on the design alternatives, for the designs the code implements
@@ -596,13 +614,18 @@ def run(rep, tier, seed):
                        ("Inventory_edge_acct.cfg", "edge-assemblies-tree")):
         names, _ = replay_config(rep, cfg, env, fams, label, seed=seed)
         seen |= names
+    # histories three edits deep around a height change (edit above the block ; setHeight ; edit above it again): what a value
+    # cached above the block across the geometry change would break
+    names, _ = replay_config(rep, "Inventory_core_geom_emit%s.cfg" % ("_thorough" if thorough else ""), env, fams, "height-change-histories",
+                             seed=seed, dt=False, max_edges=(12000 if thorough else None))
+    seen |= names
     if thorough:
         for fam in fams:  # every family on every edge of the two deep emissions
             replay_config(rep, "Inventory_blk_emit_thorough.cfg", env, [fam], "block-tree-2-edits:" + fam, seed=seed, dt=(fam == "circle"),
                           weight_free_too=(fam == "hot"), max_edges=(None if fam == "circle" else 4000))
         replay_config(rep, "Inventory_core_emit_thorough.cfg", env, fams, "third-core-tree-2-edits", seed=seed, dt=False, max_edges=8000)
     need = {"SetN", "SetN!", "UpdateN", "SetNs", "Scale", "Clear", "AddMass", "AddMass!", "RemoveMass", "SetMass", "SetMass!",
-            "SetMassFracs", "SetMassFracs!"}
+            "SetMassFracs", "SetMassFracs!", "AddMasses", "AddMasses!", "SetMasses", "SetMasses!", "SetHeight"}
     seen = {x.rstrip("!") if x.startswith("Scale") else x for x in seen}
     if need - seen:
         raise tlc.MachineryError("vacuous: never replayed: %s" % sorted(need - seen))
@@ -635,6 +658,10 @@ def run(rep, tier, seed):
         "Component.density() deferring to the material for an all-zero composition is outside the property (not compared)",
         "removeMass never removes everything; no negative densities; setMassFracs read-back claimed for feasible requests",
         "clearNumberDensities' TRACE_NUMBER_DENSITY (1e-50) is 0 in the model; mass fractions are not compared where the density is 0",
+        "geometry changes between composition edits are block height changes (setHeight with and without conserveMass); component "
+        "dimension / temperature changes belong to C03",
+        "vector calls addMasses / setMasses are applied entry by entry in dict order; read-back is claimed for the calls that complete, "
+        "removal entries never remove everything",
     )
 
 
@@ -676,7 +703,13 @@ def snapshot(ad, w):
             row[k] = rat(q)
         N.append(row)
         H.append([k for k in ORDER if NAMES[k] in d])
-    return {"N": N, "H": H}
+    hgt = []
+    for b in w.blocks:
+        h = float(w.node[b].getHeight())
+        if h != int(h):
+            return None
+        hgt.append(int(h))
+    return {"N": N, "H": H, "hgt": hgt}
 
 
 def _gcd(a, b):
@@ -696,7 +729,8 @@ def trace_driver(tree, ntraces, nev, seed, tname):
             ad = ads[fam]
             # a random initial composition from the parameter pool
             N0 = [{k: rat(rng.choice(VALS[1:])) if rng.random() < 0.6 else [0, 1] for k in ORDER} for _ in range(tree["nleaf"])]
-            root = {"N": N0, "H": [[N0[l][k] != [0, 1] or rng.random() < 0.15 for k in ORDER] for l in range(tree["nleaf"])]}
+            root = {"N": N0, "H": [[N0[l][k] != [0, 1] or rng.random() < 0.15 for k in ORDER] for l in range(tree["nleaf"])],
+                    "hgt": [rng.choice(tree["hdom"]) for _ in range(tree["nblk"])]}
             for l in range(tree["nleaf"]):  # a key that is not held has density 0
                 for i, k in enumerate(ORDER):
                     if not root["H"][l][i]:
@@ -718,9 +752,9 @@ def trace_driver(tree, ntraces, nev, seed, tname):
                         ev.append({"a": a, "post": {"outside": True}})
                         break
                     ev.append({"a": a, "post": dict(snap, err=err)})
-                    cleared = cleared or (a["n"] == "Clear")
+                    cleared = cleared or (a["n"] in ("Clear", "SetMasses"))
                 except Exception as ex:  # noqa: BLE001  an escaping exception ends the history; TLC rejects the event
-                    ev.append({"a": a, "post": {"N": init["N"], "H": init["H"], "err": "exception %s: %s" % (type(ex).__name__, str(ex)[:200])}})
+                    ev.append({"a": a, "post": {"N": init["N"], "H": init["H"], "hgt": init["hgt"], "err": "exception %s: %s" % (type(ex).__name__, str(ex)[:200])}})
                     break
             traces.append({"id": "%s-%s-%d" % (tname, fam, t), "init": init, "ev": ev})
     return traces
@@ -731,8 +765,37 @@ def random_action(ad, w, rng, K, cleared):
     o = w.node[x]
     leaf = ad.kind[x] == "leaf"
     kind = rng.choice(["SetN", "SetN", "UpdateN", "SetNs", "Scale", "Clear", "AddMass", "AddMass", "RemoveMass", "SetMass", "SetMass",
-                       "SetMassFracs", "SetMassFracs"])
+                       "SetMassFracs", "SetMassFracs", "AddMasses", "AddMasses", "SetMasses", "SetHeight", "SetHeight", "SetHeight"])
     nuc = rng.choice(ORDER)
+
+    def have(k):  # the mass the edit itself works with: density x the volume addMass/setMass use
+        m = o.getNumberDensity(NAMES[k]) * o.getVolume() * _weight(k)
+        if ad.tree.get("leafVolCut") and leaf:
+            m /= o.parent.getSymmetryFactor()
+        return m
+
+    if kind == "SetHeight":
+        b = rng.choice(w.blocks)
+        blk = w.node[b]
+        hs = [h for h in ad.tree["hdom"] if float(h) != blk.getHeight()]
+        cons = rng.random() < 0.5
+        if cons and not blk.getNuclides():
+            return None
+        return {"n": kind, "x": b, "h": rng.choice(hs), "cons": cons}
+    if kind == "AddMasses":
+        ks = sorted(rng.sample(ORDER, rng.randrange(1, 4)))
+        m = {}
+        for k in ks:
+            q = rng.choice(MASSES + [Fraction(0)])
+            if rng.random() < 0.4:  # a removal entry: legal use never removes all there is
+                if not float(q) < have(k) * (1 - 1e-9):
+                    continue
+                q = -q
+            m[k] = rat(q)
+        return {"n": kind, "x": x, "m": m} if m else None
+    if kind == "SetMasses":
+        ks = sorted(rng.sample(ORDER, rng.randrange(1, 4)))
+        return {"n": kind, "x": x, "m": {k: rat(rng.choice(MASSES + [Fraction(0)])) for k in ks}}
     if kind == "SetN":
         return {"n": kind, "x": x, "nuc": nuc, "v": rat(rng.choice(VALS))}
     if kind in ("UpdateN", "SetNs"):
@@ -746,11 +809,8 @@ def random_action(ad, w, rng, K, cleared):
         return {"n": kind, "x": x, "nuc": nuc, "m": rat(rng.choice(MASSES))}
     if kind == "RemoveMass":
         m = rng.choice(MASSES)
-        # legal use: never all there is (the mass the edit itself works with: density x getVolume())
-        have = o.getNumberDensity(NAMES[nuc]) * o.getVolume() * _weight(nuc)
-        if ad.tree.get("leafVolCut") and leaf:
-            have /= o.parent.getSymmetryFactor()
-        return {"n": kind, "x": x, "nuc": nuc, "m": rat(m)} if float(m) < have * (1 - 1e-9) else None
+        # legal use: never all there is
+        return {"n": kind, "x": x, "nuc": nuc, "m": rat(m)} if float(m) < have(nuc) * (1 - 1e-9) else None
     if kind == "SetMassFracs":
         if cleared:
             return None
@@ -947,8 +1007,43 @@ def selftest():
             out.extend(self._getNuclidesFromSpecifier(s))
         return sorted(set(out))
 
+    def volfracs_cached(self):
+        fracs = self._getCached("volumeFractions")
+        if fracs:
+            return fracs
+        children = self.getChildren()
+        numerator = [c.getVolume() for c in children]
+        denom = sum(numerator)
+        if denom == 0.0:
+            numerator = [c.getArea() for c in children]
+            denom = sum(numerator)
+        fracs = [(ci, nu / denom) for ci, nu in zip(children, numerator)]
+        self._setCache("volumeFractions", fracs)
+        return fracs
+
+    def addmasses_positive_only(self, masses):
+        for nucName, mass in masses.items():
+            if mass > 0.0:
+                self.addMass(nucName, mass)
+
+    def setmasses_no_clear(self, masses):
+        for nucName, mass in masses.items():
+            self.setMass(nucName, mass)
+
+    def setheight_no_cache_clear(self, modifiedHeight, conserveMass=False, adjustList=None):
+        originalHeight = self.getHeight()
+        self.p.height = modifiedHeight
+        if conserveMass and originalHeight != modifiedHeight:
+            self.adjustDensity(originalHeight / modifiedHeight, adjustList)
+        if self.parent:
+            self.parent.calculateZCoords()
+
     P = patched
     mutants = [
+        ("seed 3: getVolumeFractions cached across a block height change", lambda: P(A, "getVolumeFractions", volfracs_cached)),
+        ("seed 5: addMasses skips removal (negative) entries", lambda: P(A, "addMasses", addmasses_positive_only)),
+        ("setMasses forgets to clear the unlisted nuclides", lambda: P(A, "setMasses", setmasses_no_clear)),
+        ("Block.setHeight does not invalidate the cached component volumes", lambda: P(blocks.Block, "setHeight", setheight_no_cache_clear)),
         ("homogenisation weighted by area instead of volume", lambda: P(A, "getNuclideNumberDensities", nnd_by_area)),
         ("homogenisation applies the children's symmetry factor again", lambda: P(A, "getNuclideNumberDensities", nnd_sym_twice)),
         ("Component.getMass omits the symmetry factor", lambda: P(C, "getMass", getmass_nosym)),
